@@ -19,6 +19,23 @@ from .ev import ev, Sym, FuncRef, _bind, PyRaise, RepoExc, exc_issub, Scope
 from .src import Unknown
 
 
+
+class GenList(list):
+    """What a generator function of the repository returns here: the values it yields (the body is run eagerly), usable as a
+    list by the rules, and consumed like an iterator by `next` and `for`."""
+    _pos = 0
+
+    def __iter__(self):
+        while self._pos < len(self):
+            self._pos += 1
+            yield list.__getitem__(self, self._pos - 1)
+
+    def __next__(self):
+        if self._pos >= len(self):
+            raise StopIteration
+        self._pos += 1
+        return list.__getitem__(self, self._pos - 1)
+
 class Signal(Exception):
     pass
 
@@ -113,7 +130,7 @@ class Interp:
                 return r.value
         if is_gen:
             # a generator: its body runs when it is iterated; here it is run eagerly and the values collected
-            return env['__yielded__']
+            return GenList(env['__yielded__'])
         return None
 
     def block(self, stmts, env):
@@ -161,7 +178,7 @@ class Interp:
             if isinstance(it, Sym):
                 raise Unknown(f'loop over symbolic iterable: {ast.unparse(st.iter)}')
             try:
-                items = list(it)
+                items = it if hasattr(it, '__next__') else list(it)     # an iterator is consumed as the loop goes
             except TypeError:
                 raise Unknown(f'loop over non-iterable: {ast.unparse(st.iter)}')
             broke = False
